@@ -1,9 +1,9 @@
 SPECIFICATION Spec
 CONSTANTS
   TypeSeq <- TS2
-  MaxVars = 2
+  MaxVars = 1
   MaxStmts = 3
-  Forms = {"tv", "bin", "cmp", "declt", "asgu", "asgt", "chain"}
-  Rets = {"void", "i32"}
+  Forms = {"tv", "bin", "cmp", "asgu", "asgt"}
+  Rets = {"void", "u8"}
 INVARIANTS ASound AUndet ASolution EmitCase
 CHECK_DEADLOCK FALSE
